@@ -67,3 +67,17 @@ func (v *VerifSB) State() string {
 	p.rwCond.L.Unlock()
 	return fmt.Sprintf("next=%d heap=[%s] buf=%d", v.sb.nextRecvSeq, strings.Join(ss, ","), bl)
 }
+
+// HoldPipe takes the byte pipe's own mutex (what a reader holds while it copies out) and returns the release function.
+func (v *VerifSB) HoldPipe() (release func()) {
+	v.sb.buf.rwCond.L.Lock()
+	return func() { v.sb.buf.rwCond.L.Unlock() }
+}
+
+// Buffered is the number of bytes handed over to the pipe so far and not yet read (caller must not hold the pipe).
+func (v *VerifSB) Buffered() int {
+	p := v.sb.buf
+	p.rwCond.L.Lock()
+	defer p.rwCond.L.Unlock()
+	return p.buf.Len()
+}
